@@ -191,6 +191,10 @@ static void gen_addr(Node *node) {
     break;
   case ND_ASSIGN:
   case ND_COND:
+  case ND_STMT_EXPR:
+    // A struct value is represented by its address, so the members of
+    // `(a = b)`, `(c ? a : b)` and of a statement expression such as
+    // `va_arg(ap, struct S)` can be accessed.
     if (node->ty->kind == TY_STRUCT || node->ty->kind == TY_UNION) {
       gen_expr(node);
       return;
